@@ -33,8 +33,12 @@ def run_with_scenarios(mod, ctx):
     skipped = []
     import time as _t
     t_generic = _t.time() - ctx.t0
-    budget = max(float(os.environ.get("VERIF_ALT_BUDGET", "60")), 4.0 * t_generic)        # alternative scenarios are bounded in time as well as in number
+    # alternative scenarios are bounded in number (MAX_ALTS re-runs of the rule) and in time (room for MAX_ALTS re-runs of the
+    # observed cost, inside the watchdog limit of the tier)
+    budget = max(float(os.environ.get("VERIF_ALT_BUDGET", "60")), (MAX_ALTS + 2) * t_generic)
     t_alt0 = _t.time()
+    for alt in alts[MAX_ALTS:]:
+        skipped.append(f"{_alt_label(alt)}: more than {MAX_ALTS} alternative scenarios")
     for alt in alts[:MAX_ALTS]:
         if _t.time() - t_alt0 > budget:
             skipped.append(f"{_alt_label(alt)}: time budget for alternative scenarios exhausted")
